@@ -7,8 +7,8 @@ PROVED, VIOL, INCONC = 'proved', 'violation', 'inconclusive'
 
 class Ob:
     """one proof obligation: fn(ctx, *args) -> result dict (see ok/viol/inconc)"""
-    def __init__(s, oid, fn, args=(), timeout=None, weight=1):
-        s.id = oid; s.fn = fn; s.args = args; s.timeout = timeout; s.weight = weight
+    def __init__(s, oid, fn, args=(), kwargs=None, timeout=None, weight=1):
+        s.id = oid; s.fn = fn; s.args = args; s.kwargs = kwargs or {}; s.timeout = timeout; s.weight = weight
 def ok(detail='', sample=None, **kw): return dict(status=PROVED, detail=detail, sample=sample, **kw)
 def viol(key, detail, replay=None, sample=None, **kw): return dict(status=VIOL, key=key, detail=detail, replay=replay, sample=sample, **kw)
 def inconc(detail, **kw): return dict(status=INCONC, detail=detail, **kw)
@@ -26,7 +26,7 @@ def _work(i):
     from . import smt
     q0 = dict(smt.STATS)
     signal.signal(signal.SIGALRM, _alarm); signal.alarm(int(ob.timeout or (1800 if _CTX.thorough else 600)))
-    try: r = ob.fn(_CTX, *ob.args)
+    try: r = ob.fn(_CTX, *ob.args, **ob.kwargs)
     except _Timeout: r = inconc('obligation exceeded its wall-clock budget')
     except Exception as e:
         from .interp import Unsupported
